@@ -5,4 +5,4 @@ cd "$(dirname "$0")/.."
 # evidence files would race between parallel runs of the same property: run different properties in parallel, seeds sequentially
 run_prop() { id="$1"; tier="$2"; a="$3"; b="$4"; for s in $(seq "$a" "$b"); do out=$(VERIF_SEED=$s ./check "$id" "$tier" 2>&1); rc=$?; line=$(echo "$out" | grep -E '^(OK|VIOLATION|HARNESS)' | head -1 | cut -c1-220); echo "seed=$s $id rc=$rc $line"; if [ $rc -ne 0 ]; then echo "$out" | head -20; fi; done; }
 export -f run_prop
-seq -w 1 20 | sed 's/^/C/' | xargs -P "$par" -I{} bash -c "run_prop {} $tier $a $b" | tee soak.log | grep -v " rc=0 " ; echo "runs: $(grep -c ' rc=' soak.log)  non-zero: $(grep ' rc=' soak.log | grep -vc ' rc=0 ')"
+seq -w 1 20 | sed 's/^/C/' | xargs -P "$par" -I{} bash -c "run_prop {} $tier $a $b" | tee soak.log | grep -v " rc=0 " ; nz=$(grep ' rc=' soak.log | grep -vc ' rc=0 '); echo "runs: $(grep -c ' rc=' soak.log)  non-zero: $nz"; [ "$nz" -eq 0 ]
